@@ -26,6 +26,7 @@ import Std.Data.HashSet
 import KafkaVerif.Base.Proto
 import KafkaVerif.Model.WriterClose
 import KafkaVerif.Model.ReaderClose
+import KafkaVerif.Model.GroupRun
 
 namespace KV.OracleC09
 open KV KV.WriterClose
@@ -371,6 +372,117 @@ def simulateT (toks : List String) : String :=
 
 end R
 
+/-! ## ConsumerGroup.Close: deterministic replay of the hook trace through Model/GroupRun (op `grun`) -/
+
+namespace G
+open KV.Group
+
+-- event syntax of go/cmd/c15 (`canon`); parser copied from Oracle/C15.lean
+def parseErr? : String → Option (Option Err)
+  | "-" => some none
+  | "cl" => some (some .closed)
+  | "rb" => some (some .rebalance)
+  | "ut" => some (some .unknownTopic)
+  | "k" => some (some .kafka)
+  | "net" => some (some .net)
+  | _ => none
+
+def parseErr1 (s : String) : Option Err := (parseErr? s).bind id
+
+def parseBool? : String → Option Bool
+  | "1" => some true | "0" => some false | "true" => some true | "false" => some false | _ => none
+
+def mem (s : String) : String := if s == "_" then "" else s
+
+def parseEv (tok : String) : Option Ev :=
+  match tok.splitOn ":" with
+  | ["connectRes", e] => (parseErr? e).map .connectRes
+  | ["findRes", e] => (parseErr? e).map .findRes
+  | ["joinOk", mi, m, gid, l] => do some (.joinOk (mem mi) (mem m) (← gid.toInt?) (← parseBool? l))
+  | ["joinErr", mi, e] => do some (.joinErr (mem mi) (← parseErr1 e))
+  | ["partsRes", e] => (parseErr? e).map .partsRes
+  | ["syncRes", mi, gi, e] => do some (.syncRes (mem mi) (← gi.toInt?) (← parseErr? e))
+  | ["fetchRes", e] => (parseErr? e).map .fetchRes
+  | ["gNew", g, gid, m] => do some (.gNew (← g.toNat?) (← gid.toInt?) (mem m))
+  | ["gStart", g, a] => do some (.gStart (← g.toNat?) (← parseBool? a))
+  | ["sawClose", g, r] => do some (.sawClose (← g.toNat?) (← parseBool? r))
+  | ["handed", g] => do some (.handed (← g.toNat?))
+  | ["sawGenDone", g] => do some (.sawGenDone (← g.toNat?))
+  | ["gClose", g, w, r] => do some (.gClose (← g.toNat?) (← parseBool? w) (← r.toNat?))
+  | ["gClosed", g] => do some (.gClosed (← g.toNat?))
+  | ["nextGenRet", m, e] => do some (.nextGenRet (mem m) (← parseErr? e))
+  | ["leave", m] => some (.leave (mem m))
+  | ["leaveRes", mi, ok] => do some (.leaveRes (mem mi) (← parseBool? ok))
+  | ["errDeliver", e, d] => do some (.errDeliver (← parseErr1 e) (← parseBool? d))
+  | ["backoff", w] => do some (.backoff (← w.toNat?))
+  | ["runExit"] => some .runExit
+  | ["hbCall", g, gid, m] => do some (.hbCall (← g.toNat?) (← gid.toInt?) (mem m))
+  | ["hbRet", g, e] => do some (.hbRet (← g.toNat?) (← parseErr? e))
+  | ["hbExit", g] => do some (.hbExit (← g.toNat?))
+  | ["watchCall", g, t] => do some (.watchCall (← g.toNat?) (← t.toNat?))
+  | ["watchParts", g, t, n] => do some (.watchParts (← g.toNat?) (← t.toNat?) (← n.toNat?))
+  | ["watchErr", g, t, e] => do some (.watchErr (← g.toNat?) (← t.toNat?) (← parseErr1 e))
+  | ["watchExit", g, t] => do some (.watchExit (← g.toNat?) (← t.toNat?))
+  | ["fnExit", g, c, l] => do some (.fnExit (← g.toNat?) (← parseBool? c) (← l.toNat?))
+  | ["uRet", g, a] => do some (.uRet (← g.toNat?) (← parseBool? a))
+  | ["uCtx", g] => do some (.uCtx (← g.toNat?))
+  | ["closeCall"] => some .closeCall
+  | ["closeRet"] => some .closeRet
+  | ["nextCall"] => some .nextCall
+  | ["nextRetGen", g] => do some (.nextRet (.gen (← g.toNat?)))
+  | ["nextRetErr", e] => do some (.nextRet (.err (← parseErr1 e)))
+  | _ => none
+
+
+/-- deterministic acceptance: fold `step` (D9-repaired code) over the events -/
+def replay (nw : Nat) (evs : List (String × Ev)) : String × Option St := Id.run do
+  let cfg : Group.Cfg := ⟨nw, true⟩
+  let mut s : St := {}
+  let mut i := 0
+  for (raw, e) in evs do
+    match Group.step cfg s e with
+    | some s' => s := s'
+    | none => return (s!"reject@{i}:{raw}", none)
+    i := i + 1
+  return ("ok", some s)
+
+/-- C09 monitor on the raw event list: Close returns after `run` exited; the member id held last was sent in a
+LeaveGroup before; nothing but refused `Next` calls after Close returned -/
+def holds (evs : List Ev) : Bool :=
+  let z := evs.zipIdx
+  let pos := fun (p : Ev → Bool) => (z.find? fun x => p x.1).map (·.2)
+  let cc := pos (· == .closeCall)
+  let cr := pos (· == .closeRet)
+  let rx := pos (· == .runExit)
+  let m1 := cc.isNone || (cr.isSome && rx.isSome && (match rx, cr with | some a, some b => a < b | _, _ => false))
+  let upto := match rx with | some i => evs.take i | none => evs
+  let held := upto.foldl (fun (acc : Option String) e => match e with
+    | .joinOk _ m _ _ => some m
+    | .joinErr _ _ => none
+    | .leaveRes mi _ => if acc == some mi then none else acc
+    | _ => acc) none
+  let m2 := cc.isNone || held.isNone
+  let m3 := match cr with
+    | some i => z.all fun x => x.2 ≤ i || (match x.1 with | .nextCall | .nextRet (.err .closed) => true | _ => false)
+    | none => true
+  m1 && m2 && m3
+
+def run (cfgs : String) (trace : String) : String × Bool :=
+  let nw := ((cfgs.splitOn ",").filterMap fun p => match p.splitOn "=" with | ["nw", v] => v.toNat? | _ => none).headD 0
+  let toks := (trace.splitOn ";").filter (· ≠ "")
+  match toks.mapM (fun t => (parseEv t).map fun e => (t, e)) with
+  | none => ("bad-trace", false)
+  | some evs =>
+    let (m, st) := replay nw evs
+    let evl := evs.map (·.2)
+    -- after an accepted trace that contains closeRet the model must be in `exited` with the group closed
+    let fin : Bool := match st with
+      | some s => !(evl.contains .closeRet) || (s.pc == .exited && s.closedCG)
+      | none => true
+    (if fin then m else "final-state-not-exited", holds evl)
+
+end G
+
 def answer (model : String) (holds : Bool) : String :=
   s!"model={model} holds={if holds then 1 else 0}"
 
@@ -385,6 +497,7 @@ def step (line : String) : String :=
     | "rclose" :: cfgs :: toks =>
       answer (R.simulate (cfgs.startsWith "grp=1") toks) (R.holds toks)
     | "tclose" :: _ :: toks => answer (R.simulateT toks) (R.holdsT toks)
+    | ["grun", cfgs, trace] => let (m, h) := G.run cfgs trace; answer m h
     | _ => "bad-op"
   | _ => "bad-line"
 
